@@ -7,6 +7,7 @@ C02, machine level: the cost budget of `run_program` is sound, upward closed, a 
 shapes `OpBudget` / `OpBudgetErr` of `OpProps.lean`).
 -/
 import ClvmProofs.Lemmas.Interp.LiftShape
+import ClvmProofs.Lemmas.Interp.LiftFrame
 
 namespace Clvm.Interp
 open Clvm Clvm.Alloc
@@ -42,5 +43,356 @@ theorem run_sound {cfg : Cfg} {d : Dialect} {fuel : Nat} {c0 : Ctr} {p e : Val} 
   have hsf := (Shaped.final hF hop).2.2.1
   have := runLoop_cost_le cfg d _ fuel s0 cost0 C sF h3
   simpa [effMax, hsf] using this
+
+/-! ### the per-operator input -/
+
+/-- **`Dialect.OpBudget`**: every operator of the dialect, as a function of its budget argument, has
+the shape `OpBudget` of `OpProps.lean`: after a success under budget `m`, the outcome under any other
+budget `m'` is the same success or `CostExceeded` (`dich`), and the same success as soon as `m'`
+covers the charged cost (`tight`). -/
+structure Dialect.OpBudget (d : Dialect) : Prop where
+  dich : ∀ (o args : Val) (ext : OperatorSet) (c : Ctr) (m m' : Nat) (r : Nat × Val × Ctr),
+    d.op o args m ext c = some (.ok r) →
+      d.op o args m' ext c = some (.ok r) ∨ d.op o args m' ext c = some (.error .CostExceeded)
+  tight : ∀ (o args : Val) (ext : OperatorSet) (c : Ctr) (m m' : Nat) (r : Nat × Val × Ctr),
+    d.op o args m ext c = some (.ok r) → r.1 ≤ m' → d.op o args m' ext c = some (.ok r)
+
+/-- the shape `OpBudgetErr` for a dialect (not needed by the theorems about successful runs below) -/
+def Dialect.OpBudgetErr (d : Dialect) : Prop :=
+  ∀ (o args : Val) (ext : OperatorSet) (c : Ctr) (m m' : Nat) (e : Err),
+    d.op o args m ext c = some (.error e) → e ≠ .CostExceeded → m ≤ m' → d.op o args m' ext c = some (.error e)
+
+/-- what upward closure needs: a success whose cost fitted its budget is the same success under
+every larger budget.  Weaker than `OpBudget.tight`; it also holds for `op_unknown` of the old cost
+model, whose reported cost can wrap around (DESIGN §6-B). -/
+def Dialect.OpBudgetUp (d : Dialect) : Prop :=
+  ∀ (o args : Val) (ext : OperatorSet) (c : Ctr) (m m' : Nat) (r : Nat × Val × Ctr),
+    d.op o args m ext c = some (.ok r) → r.1 ≤ m → m ≤ m' → d.op o args m' ext c = some (.ok r)
+
+/-- what the dichotomy needs -/
+def Dialect.OpBudgetDich (d : Dialect) : Prop :=
+  ∀ (o args : Val) (ext : OperatorSet) (c : Ctr) (m m' : Nat) (r : Nat × Val × Ctr),
+    d.op o args m ext c = some (.ok r) →
+      d.op o args m' ext c = some (.ok r) ∨ d.op o args m' ext c = some (.error .CostExceeded)
+
+theorem Dialect.OpBudget.up {d : Dialect} (h : d.OpBudget) : d.OpBudgetUp :=
+  fun o args ext c m m' r hr h1 h2 => h.tight o args ext c m m' r hr (Nat.le_trans h1 h2)
+
+/-! ### generalities about the loop -/
+
+/-- the cost only grows -/
+theorem runLoop_cost_ge (cfg : Cfg) (d : Dialect) (mc : Nat) (fuel : Nat) :
+    ∀ (s : MState) (cost : Nat) (C : Nat) (sF : MState),
+      runLoop cfg d mc fuel s cost = some (.ok (C, sF)) → cost ≤ C := by
+  induction fuel with
+  | zero => intro s cost C sF h; simp [runLoop_zero] at h
+  | succ n ih =>
+    intro s cost C sF h
+    rw [runLoop_succ] at h
+    unfold loopBody at h
+    split at h
+    · cases h
+    · split at h
+      · cases h; exact Nat.le_refl _
+      · split at h
+        · cases h
+        · exact Nat.le_trans (Nat.le_add_right _ _) (ih _ _ C sF h)
+
+/-- a loop that finishes passed the cost check of its first iteration -/
+theorem runLoop_ok_first {cfg : Cfg} {d : Dialect} {mc fuel : Nat} {s : MState} {cost : Nat} {r : Nat × MState}
+    (h : runLoop cfg d mc fuel s cost = some (.ok r)) : cost ≤ effMax mc s := by
+  cases fuel with
+  | zero => simp [runLoop_zero] at h
+  | succ n =>
+    rw [runLoop_succ] at h
+    unfold loopBody at h
+    split at h
+    · cases h
+    · omega
+
+/-! ### the relation between the two runs of (b) and (c)
+
+Two runs of the same program under different budgets go through the same states except for the
+expected cost recorded in *cost-exempt* guards (`OperatorSet::PreHardFork`), which is the limit in
+force when the guard was entered and therefore depends on the budget. -/
+
+/-- `g` (run with the smaller budget) against `g'` (larger budget) -/
+def GuardLe (g g' : SoftforkGuard) : Prop :=
+  g.allocatorState = g'.allocatorState ∧ g.operatorSet = g'.operatorSet ∧ g.expectedCost ≤ g'.expectedCost ∧
+  (g.operatorSet ≠ .PreHardFork → g.expectedCost = g'.expectedCost)
+
+abbrev GuardsLe : List SoftforkGuard → List SoftforkGuard → Prop := GuardsRel GuardLe
+
+theorem effMax_le {mc1 mc2 : Nat} (hmc : mc1 ≤ mc2) {s : MState} {sf2 : List SoftforkGuard}
+    (hg : GuardsLe s.softforkStack sf2) : effMax mc1 s ≤ effMax mc2 (s.setSf sf2) := by
+  unfold effMax
+  rcases hg.inv with ⟨h1, rfl⟩ | ⟨g1, g2, r1, r2, h1, rfl, hh, _⟩
+  · simpa [MState.setSf, h1] using hmc
+  · simpa [MState.setSf, h1] using hh.2.2.1
+
+theorem curExt_le {s : MState} {sf2 : List SoftforkGuard} (hg : GuardsLe s.softforkStack sf2) :
+    curExt (s.setSf sf2) = curExt s := by
+  unfold curExt
+  rcases hg.inv with ⟨h1, rfl⟩ | ⟨g1, g2, r1, r2, h1, rfl, hh, _⟩
+  · simp [MState.setSf, h1]
+  · simpa [MState.setSf, h1] using hh.2.1.symm
+
+theorem exitGuard_rel {s s' : MState} {cost c : Nat} {g1 g2 : SoftforkGuard} {r1 r2 : List SoftforkGuard}
+    (hs : s.softforkStack = g1 :: r1) (hA : g1.allocatorState = g2.allocatorState)
+    (hO : g1.operatorSet = g2.operatorSet)
+    (hE : g1.operatorSet ≠ .PreHardFork → g1.expectedCost = g2.expectedCost)
+    (h : exitGuard s cost = .ok (c, s')) :
+    exitGuard (s.setSf (g2 :: r2)) cost = .ok (c, s'.setSf r2) ∧ s'.softforkStack = r1 := by
+  unfold exitGuard at h ⊢
+  rw [hs] at h
+  simp only [MState.setSf] at h ⊢
+  have hex : g2.costExempt = g1.costExempt := by unfold SoftforkGuard.costExempt; rw [hO]
+  split at h
+  · cases h
+  · rename_i hchk
+    have hchk2 : ¬ ((!g2.costExempt && cost != g2.expectedCost) = true) := by
+      rw [hex]
+      intro hh
+      apply hchk
+      simp only [Bool.and_eq_true, Bool.not_eq_true', bne_iff_ne, ne_eq] at hh ⊢
+      refine ⟨hh.1, ?_⟩
+      have : g1.operatorSet ≠ .PreHardFork := by
+        intro he
+        have := hh.1
+        unfold SoftforkGuard.costExempt at this
+        rw [he] at this
+        simp at this
+      rw [hE this]; exact hh.2
+    rw [if_neg hchk2]
+    split at h
+    · cases h
+    · rename_i v vs hv
+      obtain ⟨s1, h1, h⟩ := M_bind_ok h
+      cases M_pure_ok h
+      obtain ⟨e1, f1⟩ := push_setSf r2 h1
+      rw [← hA]
+      refine ⟨?_, ?_⟩
+      · simp only [MState.setSf] at e1
+        rw [M_bind_eq e1]; rfl
+      · rw [f1]
+
+/-! ### (b) upward closure -/
+
+theorem applyBody_up {cfg : Cfg} {d : Dialect} (hd : d.OpBudgetUp) {s s' : MState} {sf2 : List SoftforkGuard}
+    {ol o : Val} {cost em1 em2 c : Nat} (hg : GuardsLe s.softforkStack sf2) (hc : cost ≤ em1) (hle : em1 ≤ em2)
+    (hfit : s'.softforkStack = s.softforkStack → cost + c ≤ em1)
+    (h : applyBody cfg d s ol o cost (em1 - cost) = .ok (c, s')) :
+    ∃ sf2', applyBody cfg d (s.setSf sf2) ol o cost (em2 - cost) = .ok (c, s'.setSf sf2') ∧
+      GuardsLe s'.softforkStack sf2' := by
+  unfold applyBody at h ⊢
+  split at h
+  · rename_i hk
+    rw [if_pos hk]
+    unfold applyApply at h ⊢
+    obtain ⟨⟨no, env⟩, h0, h⟩ := M_bind_ok h
+    obtain ⟨⟨c1, s1⟩, h1, h⟩ := M_bind_ok h
+    cases M_pure_ok h
+    obtain ⟨e1, f1⟩ := evalPair_setSf sf2 h1
+    refine ⟨sf2, ?_, by rw [f1]; exact hg⟩
+    rw [M_bind_eq h0]; simp only
+    rw [M_bind_eq e1]; rfl
+  · rename_i hk
+    rw [if_neg hk]
+    split at h
+    · rename_i hk2
+      rw [if_pos hk2]
+      unfold applySoftfork at h ⊢
+      obtain ⟨f, hf, h⟩ := M_bind_ok h
+      obtain ⟨ec, hec, h⟩ := M_bind_ok h
+      rw [M_bind_eq hf, M_bind_eq hec]
+      split at h
+      · cases h
+      · rename_i h1
+        have h1' : ¬ ec > em2 - cost := by omega
+        rw [if_neg h1']
+        split at h
+        · cases h
+        · rename_i h2
+          rw [if_neg h2]
+          split at h
+          · split at h
+            · rename_i err hperr hallow
+              obtain ⟨s1, hp, h⟩ := M_bind_ok h
+              cases M_pure_ok h
+              obtain ⟨e1, f1⟩ := push_setSf sf2 hp
+              refine ⟨sf2, ?_, by rw [f1]; exact hg⟩
+              simp only [hallow, if_true]
+              rw [M_bind_eq e1]; rfl
+            · cases h
+          · rename_i ext prg env hparse
+            simp only
+            have hlen : (s.setSf sf2).softforkStack.length = s.softforkStack.length := hg.length_eq.symm
+            rw [hlen]
+            split at h
+            · cases h
+            · rename_i hlim
+              rw [if_neg hlim]
+              obtain ⟨⟨c1, s1⟩, hev, h⟩ := M_bind_ok h
+              cases M_pure_ok h
+              let g1 : SoftforkGuard :=
+                { expectedCost := guardExpected s ext cost (em1 - cost) ec, allocatorState := s.ctr,
+                  operatorSet := ext }
+              let g2 : SoftforkGuard :=
+                { expectedCost := guardExpected (s.setSf sf2) ext cost (em2 - cost) ec,
+                  allocatorState := s.ctr, operatorSet := ext }
+              have hgl : GuardLe g1 g2 := by
+                refine ⟨rfl, rfl, ?_, ?_⟩
+                · show guardExpected s ext cost (em1 - cost) ec ≤ guardExpected (s.setSf sf2) ext cost (em2 - cost) ec
+                  unfold guardExpected
+                  split
+                  · rcases hg.inv with ⟨h1, rfl⟩ | ⟨g1, g2, r1, r2, h1, rfl, hh, _⟩
+                    · simp only [MState.setSf, h1]; omega
+                    · simp only [MState.setSf, h1]; exact hh.2.2.1
+                  · exact Nat.le_refl _
+                · intro hne
+                  show guardExpected s ext cost (em1 - cost) ec = guardExpected (s.setSf sf2) ext cost (em2 - cost) ec
+                  unfold guardExpected
+                  have : (ext == OperatorSet.PreHardFork) = false := by
+                    cases hb : (ext == OperatorSet.PreHardFork)
+                    · rfl
+                    · exact absurd (by simpa using hb) hne
+                  simp only [this, Bool.false_eq_true, if_false]
+              obtain ⟨e1, f1⟩ := evalPair_setSf (g2 :: sf2) hev
+              refine ⟨g2 :: sf2, ?_, ?_⟩
+              · have : enterGuard (s.setSf sf2) g2 = (enterGuard s g1).setSf (g2 :: sf2) := rfl
+                have hctr : (s.setSf sf2).ctr = s.ctr := rfl
+                simp only [hctr]
+                rw [this, M_bind_eq e1]; rfl
+              · rw [f1]
+                exact GuardsRel.cons hgl hg
+    · rename_i hk2
+      rw [if_neg hk2]
+      unfold applyOrdinary at h ⊢
+      rw [curExt_le hg]
+      have hctr : (s.setSf sf2).ctr = s.ctr := rfl
+      rw [hctr]
+      split at h
+      · cases h
+      · cases h
+      · rename_i cost' v c' hop
+        obtain ⟨s1, hp, h⟩ := M_bind_ok h
+        cases M_pure_ok h
+        obtain ⟨e1, f1⟩ := push_setSf sf2 hp
+        have hfit' : cost + c ≤ em1 := hfit (by rw [f1])
+        have := hd o ol _ _ _ (em2 - cost) _ hop (by show c ≤ em1 - cost; omega) (by omega)
+        simp only [this]
+        refine ⟨sf2, ?_, by rw [f1]; exact hg⟩
+        have : ({ s with ctr := c' } : MState).setSf sf2 = { s.setSf sf2 with ctr := c' } := rfl
+        rw [this] at e1
+        rw [M_bind_eq e1]; rfl
+
+theorem stepOp_up {cfg : Cfg} {d : Dialect} (hd : d.OpBudgetUp) {s s' : MState} {sf2 : List SoftforkGuard}
+    {op : Operation} {cost em1 em2 c : Nat} (hg : GuardsLe s.softforkStack sf2) (hc : cost ≤ em1)
+    (hle : em1 ≤ em2) (hfit : s'.softforkStack = s.softforkStack → cost + c ≤ em1)
+    (h : stepOp cfg d s op cost em1 = .ok (c, s')) :
+    ∃ sf2', stepOp cfg d (s.setSf sf2) op cost em2 = .ok (c, s'.setSf sf2') ∧ GuardsLe s'.softforkStack sf2' := by
+  cases op with
+  | Apply =>
+    simp only [stepOp] at h ⊢
+    match hvs : s.valStack, hes : s.envStack with
+    | [], _ => simp [applyOp, MState.pop, hvs, bind, Except.bind] at h
+    | [_], _ => simp [applyOp, MState.pop, hvs, bind, Except.bind] at h
+    | _ :: _ :: _, [] => simp [applyOp, MState.pop, hvs, hes, bind, Except.bind] at h
+    | ol :: o :: vals, e0 :: envs =>
+      rw [applyOp_eq cfg _ s _ _ hvs hes] at h
+      rw [applyOp_eq cfg _ (s.setSf sf2) _ _ (show (s.setSf sf2).valStack = _ from hvs)
+        (show (s.setSf sf2).envStack = _ from hes)]
+      exact applyBody_up hd (s := s.applyBase vals envs) hg hc hle hfit h
+  | ExitGuard =>
+    simp only [stepOp] at h ⊢
+    rcases hg.inv with ⟨h1, rfl⟩ | ⟨g1, g2, r1, r2, h1, rfl, hh, ht⟩
+    · unfold exitGuard at h
+      rw [h1] at h
+      cases h
+    · obtain ⟨e1, f1⟩ := exitGuard_rel (r2 := r2) h1 hh.1 hh.2.1 hh.2.2.2 h
+      exact ⟨r2, e1, by rw [f1]; exact ht⟩
+  | Cons =>
+    simp only [stepOp] at h ⊢
+    obtain ⟨e1, f1⟩ := consOp_setSf sf2 h
+    exact ⟨sf2, e1, by rw [f1]; exact hg⟩
+  | SwapEval =>
+    simp only [stepOp] at h ⊢
+    obtain ⟨e1, f1⟩ := swapEvalOp_setSf sf2 h
+    exact ⟨sf2, e1, by rw [f1]; exact hg⟩
+  | RestoreAllocator =>
+    simp only [stepOp] at h ⊢
+    split at h
+    · cases h
+    · rename_i h1
+      split at h
+      · cases h
+      · rename_i h2
+        cases h
+        refine ⟨sf2, ?_, hg⟩
+        have e1 : (s.setSf sf2).allocatorStack = s.allocatorStack := rfl
+        have e2 : (s.setSf sf2).valStack = s.valStack := rfl
+        rw [e1, e2, if_neg h1, if_neg h2]; rfl
+
+/-- the loop under a larger budget follows the successful loop under the smaller one -/
+theorem runLoop_up {cfg : Cfg} {d : Dialect} (hd : d.OpBudgetUp) {mc1 mc2 : Nat} (hmc : mc1 ≤ mc2) (fuel : Nat) :
+    ∀ (s : MState) (sf2 : List SoftforkGuard) (cost C : Nat) (sF : MState), GuardsLe s.softforkStack sf2 →
+      runLoop cfg d mc1 fuel s cost = some (.ok (C, sF)) →
+      ∃ sfF, runLoop cfg d mc2 fuel (s.setSf sf2) cost = some (.ok (C, sF.setSf sfF)) ∧
+        GuardsLe sF.softforkStack sfF := by
+  induction fuel with
+  | zero => intro s sf2 cost C sF _ h; simp [runLoop_zero] at h
+  | succ n ih =>
+    intro s sf2 cost C sF hg h
+    have hem := effMax_le hmc hg
+    rw [runLoop_succ] at h ⊢
+    unfold loopBody at h ⊢
+    split at h
+    · cases h
+    · rename_i hc
+      have hc2 : ¬ cost > effMax mc2 (s.setSf sf2) := by omega
+      rw [if_neg hc2]
+      have hops : (s.setSf sf2).opStack = s.opStack := rfl
+      rw [hops]
+      split at h
+      · cases h
+        exact ⟨sf2, rfl, hg⟩
+      · rename_i op ops hop
+        split at h
+        · cases h
+        · rename_i c s1 hst
+          have hfit : s1.softforkStack = ({ s with opStack := ops } : MState).softforkStack →
+              cost + c ≤ effMax mc1 s := by
+            intro hsf
+            have := runLoop_ok_first h
+            unfold effMax at this ⊢
+            rw [hsf] at this
+            exact this
+          obtain ⟨sf2', e1, hg'⟩ := stepOp_up hd (s := { s with opStack := ops }) (sf2 := sf2) hg
+            (Nat.le_of_not_gt hc) hem hfit hst
+          have : ({ s.setSf sf2 with opStack := ops } : MState) = ({ s with opStack := ops } : MState).setSf sf2 := rfl
+          simp only [this, e1]
+          exact ih s1 sf2' _ C sF hg' h
+
+theorem setSf_self (s : MState) : s.setSf s.softforkStack = s := rfl
+
+/-- the state `run_program` enters the loop with has an empty softfork stack -/
+theorem initial_sf {cfg : Cfg} {d : Dialect} {ctr : Ctr} {p env : Val} {c : Nat} {s : MState}
+    (h : evalPair cfg d { ctr := ctr } p env = .ok (c, s)) : s.softforkStack = [] :=
+  (evalPair_setSf [] h).2
+
+/-- **C02 (b), upward closed.**  A program that succeeds under budget `M` succeeds with the same
+cost, value and counters under every budget `M'` at least as large (same fuel).  The two runs are
+not state-identical: cost-exempt guards record the limit in force, which is larger in the `M'` run
+(`GuardLe`).  Operator input: `OpBudgetUp` (implied by `OpBudget`). -/
+theorem run_upward {cfg : Cfg} {d : Dialect} (hd : d.OpBudgetUp) {fuel : Nat} {c0 : Ctr} {p e : Val}
+    {M M' : Nat} {r : Nat × Val × Ctr} (h : runProgram cfg d fuel c0 p e M = some (.ok r))
+    (hM : effBudget M ≤ effBudget M') : runProgram cfg d fuel c0 p e M' = some (.ok r) := by
+  obtain ⟨C, v, c⟩ := r
+  obtain ⟨c1, cost0, s0, sF, vs, h1, h2, h3, h4, h5⟩ := runProgram_ok_iff.1 h
+  have hsf0 := initial_sf h2
+  obtain ⟨sfF, h3', _⟩ := runLoop_up hd hM fuel s0 [] cost0 C sF (by rw [hsf0]; exact GuardsRel.nil) h3
+  have : s0.setSf [] = s0 := by rw [← hsf0]; rfl
+  rw [this] at h3'
+  exact runProgram_ok_iff.2 ⟨c1, cost0, s0, sF.setSf sfF, vs, h1, h2, h3', h4, h5⟩
 
 end Clvm.Interp
